@@ -346,7 +346,7 @@ static void analyze(const Ctx *x, Ref *r) {
     const Fn *f = x->fn; const Case *c = x->c;
     int nv = 0, code = 0;
     r->verdict = r->code = r->has_dest = 0; r->dn = 0; r->dest_is_str = 0;
-    r->has_out = r->has_rc = r->plain = r->sign_only = 0; r->out = r->rc = 0;
+    r->has_out = r->has_rc = r->plain = r->sign_only = r->tail_prior_or_zero = 0; r->out = r->rc = 0;
     if (c->d_null) { nv++; code = ESNULLP_; }
     if (c->dmax == 0 && !c->d_null) { nv++; code = ESZEROL_; }
     if (c->d_huge >= 2) { nv++; code = ESLEMAX_; }
@@ -546,6 +546,7 @@ static void oracle(Ctx *x) {
         if (r->has_dest && usable) {
             int bad = r->dest_is_str ? cmp_str_e(x->dh, r->dest, f->w, nel) : memcmp(x->dh, r->dest, r->dn * f->w) != 0;
             if (bad) { report(x, "wrong-result|%s", relclass(x, b2)); return; }
+            if (r->tail_prior_or_zero) for (long i = r->dn; i < nel; i++) { unsigned long v = eget(x->dh, f->w, i); if (v && v != eget(x->dsnap, f->w, i)) { report(x, "copied-past-the-stop-character|%s", relclass(x, b2)); return; } }
         }
         if (r->has_rc) {
             long got = x->rc;
@@ -643,8 +644,9 @@ void gen_generic(int fi) {
     if (g_tier) { static const size_t big[] = { 63, 64, 65, 127, 128, 129, 255, 256, 257 }; for (int i = 0; i < 9; i++) ndm = uniq_add(dm, ndm, big[i]); }   /* block sizes of the unrolled primitives and scratch thresholds */
     size_t sl[40]; int nsl = 0;
     if (has_l) { for (int i = 0; i <= N + 2; i++) nsl = uniq_add(sl, nsl, i); } else sl[nsl++] = 0;
-    long cv[8]; int ncv = 0;
-    if (has_c) { cv[ncv++] = 'a'; cv[ncv++] = 'c'; cv[ncv++] = 0; cv[ncv++] = 0x1ff; if (g_tier) { cv[ncv++] = 0x80; cv[ncv++] = 'Z'; } } else cv[ncv++] = 0;
+    long cv[10]; int ncv = 0;
+    if (has_c) { cv[ncv++] = 'a'; cv[ncv++] = 'c'; cv[ncv++] = 0; cv[ncv++] = 0x1ff; cv[ncv++] = 0x100 + 'b';      /* 0x162: outside unsigned char, its low byte occurs in the source pattern */
+                 if (g_tier) { cv[ncv++] = 0x80; cv[ncv++] = 'Z'; cv[ncv++] = 'c' - 256; } } else cv[ncv++] = 0;
 
     /* ---- part 1: all entry constraints satisfied: the full size lattice */
     for (int place = 0; place < 2; place++)
